@@ -363,7 +363,12 @@ class ObjectAliasMixin(GetMembersMixin, SetMembersMixin, DelMembersMixin, Serial
     @property
     def is_exported(self) -> bool:
         """Whether this object/alias is exported (listed in `__all__`)."""
-        return self.parent.is_module and bool(self.parent.exports and self.name in self.parent.exports)  # type: ignore[attr-defined]
+        return bool(
+            self.parent  # type: ignore[attr-defined]
+            and self.parent.is_module  # type: ignore[attr-defined]
+            and self.parent.exports  # type: ignore[attr-defined]
+            and self.name in self.parent.exports,  # type: ignore[attr-defined]
+        )
 
     @property
     def is_wildcard_exposed(self) -> bool:
